@@ -197,6 +197,7 @@ TableObs == [rows |-> [i \in Rows |-> <<Gof(rows[i]), Yof(rows[i]), Cof(rows[i])
              ratios |-> RatiosDef, S |-> S, G |-> G, F |-> F,
              hyps |-> [q \in 1..Len(HypSeq) |-> [f \in 1..F |-> HypSeq[q][f - 1]]],
              err |-> [q \in 1..Len(HypSeq) |-> Err(HofHyp(HypSeq[q]))],
+             cost_err |-> [k \in 1..Len(Costs) |-> [costs |-> Costs[k], err |-> [q \in 1..Len(HypSeq) |-> CostErr(HofHyp(HypSeq[q]), Costs[k][1], Costs[k][2])]]],
              reg_hyps |-> [q \in 1..Len(RegHypSeq) |-> [f \in 1..F |-> RegHypSeq[q][f - 1]]],
              bgl |-> BGLTable,
              moments |-> [m \in 1..Len(KindSeq) |->
